@@ -3,7 +3,8 @@
     Executable model of pgcat's statistics registries and of the call sites that feed them.
     Definitions only; lemmas are in Proofs.v, the property theorems in Props.v.
 
-    Code modelled (read line by line; line numbers as of /repo commit dae4e52):
+    Code modelled (read line by line; line numbers as of /repo commit dae4e52 — later fixes shift them by a few
+    lines, the call sites are identified by the quoted expressions):
 
     src/stats.rs:26-32      [CLIENT_STATS], [SERVER_STATS] : id (random i32) -> Arc<..Stats>      = [creg], [sreg]
     src/stats.rs:52-59      [client_register]: already present => warn and IGNORE, else insert     = [reg_add]
